@@ -213,6 +213,11 @@ func c01Gen(tier string, rng *rand.Rand, emit func(interface{})) {
 				}
 			}
 		}
+		if tied && it%4 == 0 && n1+n2 >= 3 {
+			// the smallest possible tie: distinct values except ONE tied pair, anywhere in the
+			// order, inside one sample or across the two
+			x1, x2 = mwOnePair(rng, n1, n2)
+		}
 		el, tl := lim, lim
 		switch it % 4 {
 		case 0, 1:
